@@ -50,7 +50,7 @@ func init() { netsync.DisableLog() } // netsync's package logger is nil until se
 // stubNotifier is the netsync.PeerNotifier of a node without peers.
 type stubNotifier struct{}
 
-func (stubNotifier) AnnounceNewTransactions([]*mempool.TxDesc)             {}
+func (stubNotifier) AnnounceNewTransactions([]*mempool.TxDesc)            {}
 func (stubNotifier) UpdatePeerHeights(*chainhash.Hash, int32, *peer.Peer) {}
 func (stubNotifier) RelayInventory(*wire.InvVect, interface{})            {}
 func (stubNotifier) TransactionConfirmed(*btcutil.Tx)                     {}
@@ -85,8 +85,8 @@ type Sys struct {
 	// Hist is the list of applied events; StuckNote the first stuck-orphan observation.
 	Hist      []int
 	StuckNote string
-	canon string // cached Canon() of the current state
-	isFork bool  // shares another system's chain; no block events
+	canon     string // cached Canon() of the current state
+	isFork    bool   // shares another system's chain; no block events
 	// AlwaysPrivate makes the system own its chain (and the sync manager) from the start.
 	AlwaysPrivate bool
 }
